@@ -36,7 +36,7 @@ fn sval(x: u128, w: u32) -> i128 {
     if w >= 128 {
         x as i128
     } else if (x >> (w - 1)) & 1 == 1 {
-        (x as i128) - (1i128 << w)
+        (x as i128).wrapping_sub(1i128 << w) // exact for w <= 126; for w = 127 the wrap gives x - 2^127
     } else {
         x as i128
     }
@@ -588,11 +588,18 @@ fn div_run(out: &mut Out, kind: &str, sg: bool, m: u32, n: u32, sa: &[u64], a: &
                 nontrivial = true;
             }
             if m != n {
-                // mixed widths are outside the statement of C17 (one width); recorded, not judged
+                // dividend and divisor of different widths: the operation's documentation allows
+                // them, so they are judged against floored division as well.  The known defect
+                // (unsigned, dividend wider than the divisor, shifted remainder loses its top bit)
+                // has its own class; anything else that differs is reported under another class.
                 if res[i] != (q, rr) {
                     out.stat(&format!("div:mixed-width-differs-from-floored:{}:m{}:n{}", if sg { "signed" } else { "unsigned" }, m, n));
+                    let class = if !sg && m > n { "longdiv-unsigned-wider-dividend" } else { "longdiv-mixed-width-wrong" };
+                    out.violation(class, json!({"signed":sg,"dividend_bits":m,"divisor_bits":n,"a":x.to_string(),"d":y.to_string()}),
+                        format!("got (q,r)=({},{}) expected floored ({},{})", res[i].0, res[i].1, q, rr));
                 } else {
                     out.stat("div:mixed-width-agrees-with-floored");
+                    out.oracle_ok();
                 }
                 continue;
             }
@@ -639,7 +646,7 @@ fn run_div(tier: &str, rng: &mut Rng, out: &mut Out) {
         let rows8: Vec<u128> = if thorough {
             (0..256u128).step_by(4).collect()
         } else {
-            let mut v = vec![0u128, 124, 128, 252];
+            let mut v = vec![0u128, 128, 252];
             v.push(4 * rng.below(64) as u128);
             v.sort();
             v.dedup();
@@ -677,8 +684,8 @@ fn run_div(tier: &str, rng: &mut Rng, out: &mut Out) {
                 div_run(out, "div_random", sg, w, w, &sa, &a, &sb, &b, None);
             }
         }
-        // mixed widths (dividend and divisor of different lengths): tied to the model, not judged
-        for &(m, n) in &[(8u32, 4u32), (4, 8), (16, 8), (8, 16), (32, 8)] {
+        // mixed widths (dividend and divisor of different lengths): tied to the model and judged
+        for &(m, n) in &[(8u32, 4u32), (4, 8), (16, 8), (8, 16), (32, 8), (64, 16), (2, 4)] {
             let ca = corners(m, rng, 3);
             let cd = corners(n, rng, 3);
             div_run(out, "div_mixed_widths", sg, m, n, &[ca.len() as u64, 1], &ca, &[cd.len() as u64], &cd, None);
